@@ -109,3 +109,47 @@ Print Assumptions C11_prefix_ambiguity_refuted.
 Theorem C11_unprefixed_enums_are_disjoint : forall always types enums, unprefixed_disjoint (resolve always types enums).
 Proof. exact unprefixed_enums_are_disjoint. Qed.
 Print Assumptions C11_unprefixed_enums_are_disjoint.
+
+(** The old-enum-conflicts arm (the key of the empty value is forced to Empty): complete under its guard, names
+    always distinct, and the guard fails on the unchanged code for [empty; ""] (known finding). *)
+Theorem C11_old_arm_complete : forall norm pathname names values,
+  List.length names = List.length values -> NoDup names ->
+  let keys := stage2_keys norm [] names in
+  let finals := map (fun kv => pathname (old_key kv)) (combine keys values) in
+  NoDup keys -> NoDup finals ->
+  enum_constants_old norm pathname names values = combine finals values.
+Proof. exact enum_old_complete. Qed.
+Print Assumptions C11_old_arm_complete.
+
+Theorem C11_old_arm_values_preserved : forall norm pathname names values,
+  List.length names = List.length values -> NoDup names ->
+  NoDup (stage2_keys norm [] names) ->
+  NoDup (map (fun kv => pathname (old_key kv)) (combine (stage2_keys norm [] names) values)) ->
+  map snd (enum_constants_old norm pathname names values) = values.
+Proof. exact enum_old_values_preserved. Qed.
+Print Assumptions C11_old_arm_values_preserved.
+
+Theorem C11_old_arm_names_distinct : forall norm pathname names values,
+  NoDup (map fst (enum_constants_old norm pathname names values)).
+Proof. exact enum_old_names_distinct. Qed.
+Print Assumptions C11_old_arm_names_distinct.
+
+Theorem C11_old_arm_empty_refuted :
+  let norm := table [("empty", "Empty"); ("", "Empty")] in
+  let pathname := fun k => ("Color" ++ k)%string in
+  stage2 norm (stage1 [] (combine ["empty"; ""] ["empty"; ""])) = [("Empty", "empty"); ("Empty1", "")] /\
+  stage3_old pathname [("Empty", "empty"); ("Empty1", "")] = [("ColorEmpty", "")] /\
+  stage3_old pathname [("Empty1", ""); ("Empty", "empty")] = [("ColorEmpty", "empty")].
+Proof. exact old_conflicts_empty_refuted. Qed.
+Print Assumptions C11_old_arm_empty_refuted.
+
+(** "all constant names are valid identifiers" is REFUTED for names made of an underscore and digits: the chain
+    SchemaNameToTypeName, SanitizeGoIdentity, SchemaNameToTypeName leaves nothing of _1 and the digit 2 of _12
+    (known finding; the chain itself is tied to the code on every ASCII name of the run). *)
+From V Require Import Model.Names Proofs.NamesProofs.
+Theorem C11_underscore_digit_chain_refuted :
+  enum_name_chain "_1" = [] /\
+  map fst (enum_name_chain "_12") = codes_of "2" /\ ident_shape (enum_name_chain "_12") = false /\
+  map fst (enum_name_chain "a-1") = codes_of "A1" /\ ident_shape (enum_name_chain "a-1") = true.
+Proof. exact underscore_digit_chain_refuted. Qed.
+Print Assumptions C11_underscore_digit_chain_refuted.
